@@ -1,9 +1,21 @@
 """C16 - text encodings round-trip: writer/reader table agreement (E3)."""
+import re
 from ..terms import short, subterms, is_int, Int
 from ..common import describe_path
 from ..db import AnchorError, strip_generics
 from ..panics import lit_of, pat_text
 from .. import tables as T
+
+
+PLUMBING = {"parse", "get", "ok_or", "ok_or_else", "map_err", "branch", "from_residual", "trim", "index", "as_str", "copied", "cloned"}
+
+
+def own_parser(calls):
+    """the value reaches the field through the field type's own parser: `T::from_str(v)`, or `v.parse()` with nothing
+    but lookup / error plumbing around it (then the type checker forces parse::<T>, which is T::from_str)"""
+    cs = set(calls)
+    return "from_str" in cs or "from_string" in cs or ("parse" in cs and cs <= PLUMBING)
+
 
 RULES = {
     "X1": "tag: the literal prefix Display writes for a type/variant equals the literal the parser matches to build that type/variant",
@@ -241,7 +253,7 @@ def check_kv(ctx, chk, db, W, ty, adt, ents, paths, fb):
                             chk.require(wl.get(term[2]) in lits2, "X7", "%s:%s:%s" % (key, k, term[2]), e.callsite,
                                         "%s::%s prints %r but this path accepted %s" % (base, term[2], wl.get(term[2]), lits2), describe_path(p.r))
                         else:
-                            chk.require("from_str" in calls or "from_string" in calls, "X4", "%s:%s:conv" % (key, k), e.callsite,
+                            chk.require(own_parser(calls), "X4", "%s:%s:conv" % (key, k), e.callsite,
                                         "field %s of type %s is not read with its own parser (%s)" % (field, base, calls[:4]), describe_path(p.r))
                 elif idiom == "debug-upper":
                     base = strip_generics(t0).split("::")[-1]
@@ -456,7 +468,7 @@ def check_queue(ctx, chk, db, W, ents, fb):
     strs, chars = T.str_and_char_consts(db, fb)
     chk.require(opener in pre, "X1", "OrderQueue", e.callsite, "Display opens with %r, parser requires %s" % (opener, sorted(pre)))
     chk.require(closer in suf, "X9", "OrderQueue:close", e.callsite, "Display closes with %r, parser requires suffix %s" % (closer, sorted(suf)))
-    j = idiom.split(":", 1)[1] if idiom.startswith("join:") else None
+    j = T.list_joiner(db, ctx.db.method("OrderQueue", "fmt", trait="Display"), idiom)
     chk.require(j is not None and (j in chars or j in strs), "X9", "OrderQueue:joiner", e.callsite, "joiner %r vs parser separators %s" % (j, sorted(chars)))
     eb = ctx.db.method("OrderType", "from_str", trait="FromStr")
     chk.require(eb.defp in ctx.cg.reach([fb.defp]), "X9", "OrderQueue:element-parser", fb.span, "elements not parsed with OrderType::from_str")
@@ -508,7 +520,7 @@ def check_level(ctx, chk, db, W, ents, fb):
         if k in wkeys:
             chk.require(wkeys[k][2] == "Display" and wkeys[k][3], "X4", "PriceLevel:%s:format" % k, e.callsite, "key %s written with {:%s}" % (k, wkeys[k][2]))
     o = wkeys.get("orders")
-    j = o[1].split(":", 1)[1] if o and o[1].startswith("join:") else None
+    j = T.list_joiner(db, ctx.db.method("PriceLevel", "fmt", trait="Display"), o[1] if o else None)
     strs, chars = T.str_and_char_consts(db, fb)
     chk.require(j is not None and j in chars, "X9", "PriceLevel:joiner", e.callsite, "orders joined with %r; parser splits on %s" % (j, sorted(chars)))
     chk.require("orders=[" in strs and "]" in chars, "X9", "PriceLevel:brackets", e.callsite, "parser looks for %s / %s" % (sorted(s for s in strs if "[" in s), sorted(chars)))
@@ -528,9 +540,9 @@ def check_match_result(ctx, chk, db, W, adt, ents, paths, allres, fb):
         wmap[k] = (field, trait, default)
     # list key (filled_order_ids=[ ... ])
     for e in ents:
-        m = e.literal_text()
-        if m.endswith("=[") and not e.placeholders():
-            wmap[m.strip(";")[:-2]] = ("filled_order_ids", "Display", True)
+        m = re.search(r"(?:^|[;:])([A-Za-z_][A-Za-z0-9_]*)=\[$", e.template)
+        if m:
+            wmap[m.group(1)] = ("filled_order_ids", "Display", True)
     tag = ents[0].template.split(":", 1)[0] + ":"
     strs, chars = T.str_and_char_consts(db, fb)
     ftys = field_types(adt)
@@ -558,6 +570,8 @@ def check_match_result(ctx, chk, db, W, adt, ents, paths, allres, fb):
             continue
         fr = r.state.frames[0]
         for l, pre in marks[0][2].items():
+            if not isinstance(l, int):
+                continue    # loop-carried heap field, not a local
             ty = fr.body.locals[l]["ty"]
             if "Option<&" in ty and "str" in ty:
                 nv = fr.locals.get(l)
@@ -581,7 +595,7 @@ def check_match_result(ctx, chk, db, W, adt, ents, paths, allres, fb):
         if fty in INT_TYS or fty == "bool":
             chk.require("parse" in calls, "X4", "MatchResult:%s:conv" % f, fb.span, "%s not read with str::parse (%s)" % (f, sorted(calls)[:4]))
         else:
-            chk.require("from_str" in calls, "X4", "MatchResult:%s:conv" % f, fb.span, "%s not read with its own parser (%s)" % (f, sorted(calls)[:6]))
+            chk.require(own_parser(calls), "X4", "MatchResult:%s:conv" % f, fb.span, "%s not read with its own parser (%s)" % (f, sorted(calls)[:6]))
     # brackets / joiner of the id list and the nested transaction list
     chk.require("[" in chars and "]" in chars or ("[" in "".join(strs) and "]" in "".join(strs)), "X9", "MatchResult:brackets", fb.span, "parser bracket constants %s" % sorted(chars))
     chk.require("," in chars or "," in strs, "X9", "MatchResult:joiner", fb.span, "parser does not split the id list on ','")
